@@ -60,7 +60,15 @@ def operation(func, o1, o2, reindex=True, broadcast=True, constructor=None):
         warnings.warn("binary op : grid mappings mismatch")
 
     # Align axes by re-indexing
+    undefined = None
     if reindex:
+        if func is np.power:
+            # coordinates that only one operand has are filled with NaN - but 1 ** nan and nan ** 0 are 1:
+            # find those coordinates with an operator that does propagate NaN (the operands' own NaNs
+            # do not count: zeros are added, not the values)
+            z1 = constructor(np.zeros(o1.shape), o1.axes)
+            z2 = constructor(np.zeros(o2.shape), o2.axes)
+            undefined = np.isnan(operation(np.add, z1, z2, reindex=True, broadcast=broadcast, constructor=constructor).values)
         o1, o2 = align_axes((o1, o2))
 
     # Align dimensions by adding new axes and transposing if necessary
@@ -77,5 +85,8 @@ def operation(func, o1, o2, reindex=True, broadcast=True, constructor=None):
             newaxes.append(ax.copy())
 
     res = func(o1.values, o2.values)
+
+    if undefined is not None and np.any(undefined):
+        res = np.where(undefined, np.nan, res)
 
     return constructor(res, newaxes)
